@@ -92,6 +92,15 @@ type opTrack struct {
 	removedBy  string // "" or the harness action that ended it (remove / replace)
 	fkinds     map[string]bool
 	fp         map[footprint]bool
+	fpk        map[[2]uint64]bool // (store, peer id) named by a step; (store, 0) for a removal
+}
+
+// coincides: does a change that left `f` behind look like one of the operator's own steps to pd? pd's
+// step accounting goes by store and peer id and mostly by "learner or not": a change that touches a
+// peer the operator names (whatever role it leaves it in), or removes the peer of a store the operator
+// removes, cannot be told apart from the operator's own progress.
+func (t *opTrack) coincides(f footprint) bool {
+	return t.fpk[[2]uint64{f.store, f.id}]
 }
 
 type world struct {
@@ -355,7 +364,7 @@ func (w *world) afterChange(g *reg, before *sim.Region, owner *opTrack, what str
 		t.foreign = true
 		t.fkinds[what] = true
 		for _, f := range fps {
-			if t.fp[f] {
+			if t.coincides(f) {
 				t.ambiguous = true
 			}
 		}
